@@ -24,4 +24,4 @@ def run(ctx):
                             f"register classes, many ISAs), each generated and compiled from scratch {runs} times in one process and once in "
                             f"each of {procs} fresh processes (fresh map hash seeds); digest of asm bytes + stub bytes + Allocation + ISA lists "
                             "must be identical; non-trivial = compiled successfully")
-    ctx.assumptions += ["order independence of the per-kind allocator loop, of Allocation.Merge and of the sorted ISA list is measured, not proved (theorems cover MaskSet operations, candidate sorting, mostrestricted, the Allocate loop w.r.t. edge-list and possible-map order, and the liveness visiting order)"]
+    ctx.assumptions += ["every enumerated map iteration has an order-independence theorem about the models; that no other source of nondeterminism exists (e.g. in printers or go/format) is measured by the repeated runs"]
